@@ -449,7 +449,7 @@ BOUNDED = {
     "C04": [dict(family="front", args_quick=["--depth", "1", "--offset", "{seed}"], args_thorough=["--depth", "2", "--offset", "{seed}"],
                  obligation="frontend/bounded-standin/front.extract",
                  known_cases="contracts/known_front_cases.txt",
-                 what="the frontend, printer and glue (swc ASTs, trait objects, symbol tables: outside Verus' dialect) through the public entry point beff_core::extract: every program `type X = E; parse.buildParsers<{X: X}>()` for E built from 36 leaf types (basic types, literals, named object/union/tuple/recursive/generic types) with one type constructor out of 45 unary and 17 binary ones (arrays, tuples, objects, mapped and conditional types, keyof, indexed access, Record/Partial/Pick/Omit/Exclude/Extract, template literals, ...) - plus every third of them once more with the named types imported from another module - 35699 programs in the quick tier (3860 of them generated unions of 2 to 4 object types discriminated by overlapping literal sets); a second constructor on top of a thinned subset (which one depends on VERIF_SEED) in the thorough tier - 886112 programs; plus 63 hand-written + 168 generated same-name layouts multi-file / malformed / circular projects. Checked per program, as the property states it: the call returns within 20 s, does not panic or crash the process, returns generated code (emit_code Ok and non-empty) or at least one diagnostic, every diagnostic names a file of the project and a line/column/byte range inside it, and the emitted module defines every named runtype exactly once, refers only to named runtypes it defines and has a buildParsersInput entry for every requested name. NOT checked: that the emitted module loads in Node (no TypeScript compiler for the client runtime offline)"),
+                 what="the frontend, printer and glue (swc ASTs, trait objects, symbol tables: outside Verus' dialect) through the public entry point beff_core::extract: every program `type X = E; parse.buildParsers<{X: X}>()` for E built from 36 leaf types (basic types, literals, named object/union/tuple/recursive/generic types) with one type constructor out of 45 unary and 17 binary ones (arrays, tuples, objects, mapped and conditional types, keyof, indexed access, Record/Partial/Pick/Omit/Exclude/Extract, template literals, ...) - plus every third of them once more with the named types imported from another module - 35759 programs in the quick tier (3860 of them generated unions of 2 to 4 object types discriminated by overlapping literal sets); a second constructor on top of a thinned subset (which one depends on VERIF_SEED) in the thorough tier - 886172 programs; plus 63 hand-written + 168 generated same-name layouts multi-file / malformed / circular projects. Checked per program, as the property states it: the call returns within 20 s, does not panic or crash the process, returns generated code (emit_code Ok and non-empty) or at least one diagnostic, every diagnostic names a file of the project and a line/column/byte range inside it, and the emitted module defines every named runtype exactly once, refers only to named runtypes it defines and has a buildParsersInput entry for every requested name. NOT checked: that the emitted module loads in Node (no TypeScript compiler for the client runtime offline)"),
             dict(family="refspanic", obligation="conversion/bounded-standin/refs.no_panic",
                  known_cases="contracts/known_refspanic_cases.txt",
                  what="convert_to_sem_type + is_subtype on named, possibly recursive types (not under contract): the 23769 questions of the `refs` family (see C05), a case fails only when the real code PANICS")],
@@ -463,7 +463,7 @@ BOUNDED = {
             dict(family="front", args_quick=["--exclude", "3"], args_thorough=["--exclude", "1"],
                  obligation="frontend/bounded-standin/exclude.printed_type",
                  known_cases="contracts/known_exclude_cases.txt",
-                 what="`Exclude<A, B>` at SOURCE level for A, B from 171 types (literals, basic types, tuples, arrays, objects, two named recursive types and their pairwise unions; every 3rd of the 29241 pairs in the quick tier): the type handed to code generation for the result is read with an independent evaluator of Runtype on about 170 finite values and must lie between the set difference and A; when every top-level member of A is, on those values, either inside or outside B, it must be exactly the union of the members outside (programs answered with a diagnostic are skipped, except a diagnostic saying that a helper type of the result itself is not defined - `reference not found` - which is a failure)"),
+                 what="`Exclude<A, B>` at SOURCE level for A, B from 231 types (literals, basic types, tuples, arrays, objects - three of them with an optional property, with and without an explicit `undefined` -, two named recursive types and their pairwise unions; every 3rd of the 53361 pairs in the quick tier): the type handed to code generation for the result is read with an independent evaluator of Runtype on about 170 finite values and must lie between the set difference and A; when every top-level member of A is, on those values, either inside or outside B, it must be exactly the union of the members outside (programs answered with a diagnostic are skipped, except a diagnostic saying that a helper type of the result itself is not defined - `reference not found` - which is a failure)"),
             dict(family="keyof", obligation="access/bounded-standin/keyof.keyof",
                  known_cases="contracts/known_keyof_cases.txt",
                  what="keyof (not under contract): keyof A, keyof (A & B), keyof (A | B) for object atoms whose declared keys are the non-empty subsets of {a, b, c}, 182 questions (147 on object atoms, 35 on unions with a primitive member, which has no keys), against the declared keys / their union / their intersection"),
